@@ -535,6 +535,23 @@ func registerHost(L *lua.LState) {
 		L.RaiseError("host function failed")
 		return 0
 	}))
+	L.SetGlobal("hoststackoverflow", L.NewFunction(func(L *lua.LState) int {
+		// unbounded (non-tail) recursion, entered through the Go API: fails with the call-stack overflow error
+		f, err := L.LoadString("local function r(n) return 1 + r(n + 1) end return r(1)")
+		if err != nil {
+			panic(err)
+		}
+		L.Push(f)
+		L.Call(0, 0)
+		return 0
+	}))
+	L.SetGlobal("hostregoverflow", L.NewFunction(func(L *lua.LState) int {
+		// a host function that pushes results until the value stack is full
+		for i := 0; i < 1<<26; i++ {
+			L.Push(lua.LNumber(i))
+		}
+		return 0
+	}))
 	L.SetGlobal("hostpanic", L.NewFunction(func(L *lua.LState) int {
 		panic("host function panicked")
 	}))
